@@ -181,7 +181,8 @@ type frameFact struct {
 	key        string
 	fresh, old smt.Term
 	f0, guard  smt.Term
-	except     smt.Term // optional: reference whose contents may change
+	except     smt.Term   // optional: reference whose contents may change
+	excepts    []smt.Term // optional: further references whose contents may change (modifies targets of the function)
 }
 
 var boundVarRe = regexp.MustCompile(`(^|[ (])q_[A-Za-z0-9_]+![0-9]+`)
@@ -209,7 +210,14 @@ func (fv *funcVerifier) instFrames(key string, r smt.Term) {
 				continue
 			}
 			q := smt.Term{S: "fr_q", Sort: smt.Int}
-			fv.assumeGlobal(smt.Implies(f.guard, smt.Forall([]smt.Term{q}, smt.Implies(smt.And(smt.Ge(q, smt.IntLit(0)), smt.Le(q, f.f0)),
+			gq := smt.And(smt.Ge(q, smt.IntLit(0)), smt.Le(q, f.f0))
+			if f.except.S != "" {
+				gq = smt.And(gq, smt.Ne(q, f.except)) // (was omitted: the quantified form must keep the exception)
+			}
+			for _, e := range f.excepts {
+				gq = smt.And(gq, smt.Ne(q, e))
+			}
+			fv.assumeGlobal(smt.Implies(f.guard, smt.Forall([]smt.Term{q}, smt.Implies(gq,
 				smt.Eq(smt.Select(f.fresh, q), smt.Select(f.old, q))))))
 		}
 		return
@@ -228,8 +236,43 @@ func (fv *funcVerifier) instFrames(key string, r smt.Term) {
 		if f.except.S != "" {
 			g = smt.And(g, smt.Ne(r, f.except))
 		}
+		for _, e := range f.excepts {
+			g = smt.And(g, smt.Ne(r, e))
+		}
 		fv.assumeGlobal(smt.Implies(g, smt.Eq(smt.Select(f.fresh, r), smt.Select(f.old, r))))
 	}
+}
+
+// modifiesRefs returns, per heap key, the references named by the function's modifies clause:
+// the fields themselves and the maps / backing arrays they refer to at function entry and in
+// state pre (loop entry).
+func (fv *funcVerifier) modifiesRefs(pre *State) map[string][]smt.Term {
+	out := map[string][]smt.Term{}
+	if fv.spec == nil || fv.spec.Modifies == nil || fv.spec.ModAll || fv.entry == nil {
+		return out
+	}
+	env := fv.ownEnv(fv.entry)
+	for _, t := range env.modTargets(fv.spec.Modifies) {
+		if t.field == nil || t.ghostKey != "" || t.inner {
+			continue
+		}
+		fk := fv.so.fieldKey(t.st, t.field.name)
+		out[fk] = append(out[fk], t.ref)
+		for _, snap := range []*State{fv.entry, pre} {
+			v := fv.fieldLval(snap, t.ref, t.st, t.field).load()
+			switch u := t.field.typ.Underlying().(type) {
+			case *types.Map:
+				d, vv, l := fv.mapKeys(u)
+				for _, mk := range []string{d, vv, l} {
+					out[mk] = append(out[mk], v)
+				}
+			case *types.Slice:
+				mk := fv.memKey(u.Elem())
+				out[mk] = append(out[mk], slArr(v))
+			}
+		}
+	}
+	return out
 }
 
 // loopCandidates proposes auto-invariants for the safety sweep.
@@ -295,10 +338,32 @@ func (fv *funcVerifier) loopCandidates(st *State, mi *modInfo) []candidate {
 			keys = append(keys, k)
 		}
 		sort.Strings(keys)
+		modEx := fv.modifiesRefs(pre)
 		for _, k := range keys {
 			k := k
 			if !strings.HasPrefix(fv.heapSorts[k], "(Array Int ") {
 				continue
+			}
+			// weaker variant for functions with a modifies clause: everything except the locations
+			// (and the maps / backing arrays they refer to at function entry and at loop entry) that
+			// the function's own modifies clause names; needed when a loop updates several of them
+			if ex := modEx[k]; len(ex) > 0 {
+				ex := ex
+				goalM := func(s *State) smt.Term {
+					r := smt.Term{S: "fr_r", Sort: smt.Int}
+					g := smt.And(smt.Ge(r, smt.IntLit(0)), smt.Le(r, f0))
+					for _, e := range ex {
+						g = smt.And(g, smt.Ne(r, e))
+					}
+					return smt.Forall([]smt.Term{r}, smt.Implies(g,
+						smt.Eq(smt.Select(fv.heapGet(s, k), r), smt.Select(fv.heapGet(pre, k), r))))
+				}
+				cands = append(cands, candidate{desc: "frame " + k + " except modifies", eval: goalM, frame: true, assumeAt: func(s *State) {
+					fresh := fv.heapGet(s, k)
+					old := fv.heapGet(pre, k)
+					fv.frameFacts = append(fv.frameFacts, frameFact{key: k, fresh: fresh, old: old, f0: f0, guard: s.live, excepts: ex})
+					fv.frameAxioms = append(fv.frameAxioms, smt.Implies(s.live, goalM(s)))
+				}})
 			}
 			goal := func(s *State) smt.Term {
 				r := smt.Term{S: "fr_r", Sort: smt.Int}
